@@ -358,7 +358,14 @@ class Execution:
                 for f in self.faults:
                     if f.get("_used") and not f.get("sticky"):
                         continue
-                    if match(ev, f.get("match", {})):
+                    m = {k: v for k, v in f.get("match", {}).items() if k not in ("n_inv", "inv_ge") or v is not None}
+                    inv_ge = m.pop("inv_ge", None)
+                    if inv_ge is not None and self.inv < inv_ge:
+                        continue
+                    if match(ev, m):
+                        f["_seen"] = f.get("_seen", 0) + 1
+                        if f["_seen"] < f.get("nth", 1):
+                            continue
                         fault = f
                         f["_used"] = True
                         break
